@@ -448,6 +448,7 @@ package bkl
 //@     invariant (=> (and (canon dst@pre) (canon src)) (canon dst))
 
 //@ func Document.Process(d, mergeFromDocs) (docs, err)
+//@   property C01, C02, C03, C04, C07, C10, C12, C13, C14, C17 shallow   -- the evaluation spine: every property that says "... is an error" relies on a failure below this function surfacing (propagates)
 //@   property C01, C02, C03, C04, C07, C10, C12, C13, C14, C17 shallow   -- every property that says "... is an error" is observed through this function: a failure below it must surface (propagates)
 //@   propagates all   [C08] [C20] [C07] [C03]
 //@   uses rappLen
@@ -463,6 +464,7 @@ package bkl
 // measure: (1002 - depth, rank of the function inside one depth level); process1 increments depth and refuses depth > 1000
 
 //@ func process1(obj, mergeFrom, mergeFromDocs, depth) (res, err)
+//@   property C01, C02, C03, C04, C07, C10, C12, C13, C14, C17 shallow   -- the evaluation spine: every property that says "... is an error" relies on a failure below this function surfacing (propagates)
 //@   propagates all   [C08]
 //@   ensures (=> (not (isErr err)) (noNullV res))     [C13]
 //@   ensures (=> (quiet obj depth) (and (not (isErr err)) (= res (dropF obj))))          [C06]
@@ -470,6 +472,7 @@ package bkl
 //@   property C10
 //@   decreases (- 1002 depth) 0
 //@ func process1Map(obj, mergeFrom, mergeFromDocs, depth) (res, err)
+//@   property C01, C02, C03, C04, C07, C10, C12, C13, C14, C17 shallow   -- the evaluation spine: every property that says "... is an error" relies on a failure below this function surfacing (propagates)
 //@   propagates all   [C08]
 //@   uses escNames
 //@   ensures (=> (not (isErr err)) (noNullV res))     [C13]
@@ -492,6 +495,7 @@ package bkl
 //@     assert (and (= (select (mc obj@pre) "$merge") VAbsent) (= v (select (mc obj@pre) "$replace")))        [C10]
 //@ func process1MapMerge(obj, mergeFrom, mergeFromDocs, v, depth) (res, err)
 //@   propagates all   [C08]
+//@   fails-only-through-calls   [C10]   -- a reference behaves like the inlined subtree: no failure of its own beyond the look-up, the copy, the merge and the evaluation
 //@   ensures (=> (not (isErr err)) (noNullV res))     [C13]
 //@   inplace obj
 //@   property C10
@@ -503,12 +507,14 @@ package bkl
 //@     assert (=> ((_ is VList) v) (listPathOK (heap Document.Data) (Document.Data mergeFrom) mergeFromDocs (ls v) in false))  [C10]
 //@ func process1MapReplace(obj, mergeFrom, mergeFromDocs, v, depth) (res, err)
 //@   propagates all   [C08]
+//@   fails-only-through-calls   [C10]   -- a reference behaves like the inlined subtree: no failure of its own beyond the look-up, the copy, the merge and the evaluation
 //@   ensures (=> (not (isErr err)) (noNullV res))     [C13]
 //@   decreases (- 1002 depth) 1
 //@   at call process1#1
 //@     assert (=> ((_ is VStr) v) (strPathOK (heap Document.Data) (Document.Data mergeFrom) mergeFromDocs (sv v) next false))    [C10]
 //@     assert (=> ((_ is VList) v) (listPathOK (heap Document.Data) (Document.Data mergeFrom) mergeFromDocs (ls v) next false))  [C10]
 //@ func process1List(obj, mergeFrom, mergeFromDocs, depth) (res, err)
+//@   property C01, C02, C03, C04, C07, C10, C12, C13, C14, C17 shallow   -- the evaluation spine: every property that says "... is an error" relies on a failure below this function surfacing (propagates)
 //@   propagates all   [C08]
 //@   uses appNil, snocApp, escNoKey, noNullApp
 //@   ensures (=> (not (isErr err)) (noNullV res))     [C13]
@@ -535,6 +541,7 @@ package bkl
 //@   decreases (- 1002 depth) 5
 //@ func process1ListReplace(obj, mergeFrom, mergeFromDocs, m, depth) (res, err)
 //@   propagates all   [C08]
+//@   fails-only-through-calls   [C10]   -- a reference behaves like the inlined subtree: no failure of its own beyond the look-up, the copy, the merge and the evaluation
 //@   ensures (=> (not (isErr err)) (noNullV res))     [C13]
 //@   decreases (- 1002 depth) 1
 //@ func process1String(obj, mergeFrom, mergeFromDocs, depth) (res, err)
@@ -544,12 +551,14 @@ package bkl
 //@   decreases (- 1002 depth) 5
 //@ func process1StringMerge(obj, mergeFrom, mergeFromDocs, depth) (res, err)
 //@   propagates all   [C08]
+//@   fails-only-through-calls   [C10]   -- a reference behaves like the inlined subtree: no failure of its own beyond the look-up, the copy, the merge and the evaluation
 //@   ensures (=> (not (isErr err)) (noNullV res))     [C13]
 //@   decreases (- 1002 depth) 1
 //@   at call process1#1
 //@     assert (strPathOK (heap Document.Data) (Document.Data mergeFrom) mergeFromDocs (trimPrefix obj "$merge:") in false)      [C10]
 //@ func process1StringReplace(obj, mergeFrom, mergeFromDocs, depth) (res, err)
 //@   propagates all   [C08]
+//@   fails-only-through-calls   [C10]   -- a reference behaves like the inlined subtree: no failure of its own beyond the look-up, the copy, the merge and the evaluation
 //@   ensures (=> (not (isErr err)) (noNullV res))     [C13]
 //@   decreases (- 1002 depth) 1
 //@   at call process1#1
@@ -558,10 +567,12 @@ package bkl
 // ------------------------------------------------------------------------------------------------- process2.go (termination: depth guard)
 
 //@ func process2(obj, mergeFrom, mergeFromDocs, ec, depth) (res, err)
+//@   property C01, C02, C03, C04, C07, C10, C12, C13, C14, C17 shallow   -- the evaluation spine: every property that says "... is an error" relies on a failure below this function surfacing (propagates)
 //@   propagates all   [C08]
 //@   ensures (=> (quiet obj depth) (and (not (isErr err)) (= res (dropF obj))))          [C06]
 //@   decreases (- 1002 depth) 0
 //@ func process2Map(obj, mergeFrom, mergeFromDocs, ec, depth) (res, err)
+//@   property C01, C02, C03, C04, C07, C10, C12, C13, C14, C17 shallow   -- the evaluation spine: every property that says "... is an error" relies on a failure below this function surfacing (propagates)
 //@   propagates all   [C08]
 //@   uses escNames
 //@   requires ((_ is VMap) obj)
@@ -619,6 +630,7 @@ package bkl
 //@   ensures (=> (and ((_ is VStr) (select (mc obj) "$value")) (not (= (fmtByName v) 0))                   [C14]
 //@                    (not (= (llen (unmarshalV (fmtByName v) (sv (select (mc obj) "$value")))) 1))) (isErr err))
 //@ func process2List(obj, mergeFrom, mergeFromDocs, ec, depth) (res, err)
+//@   property C01, C02, C03, C04, C07, C10, C12, C13, C14, C17 shallow   -- the evaluation spine: every property that says "... is an error" relies on a failure below this function surfacing (propagates)
 //@   propagates all   [C08]
 //@   uses appNil, snocApp, escNoKey
 //@   ensures (=> (quiet obj (- depth 1)) (and (not (isErr err)) (= res (dropF obj))))    [C06]
@@ -723,6 +735,7 @@ package bkl
 
 //@ func process1ListMerge(obj, mergeFrom, mergeFromDocs, m, depth) (res, err)
 //@   propagates all   [C08]
+//@   fails-only-through-calls   [C10]   -- a reference behaves like the inlined subtree: no failure of its own beyond the look-up, the copy, the merge and the evaluation
 //@   property C10
 //@   consumes obj
 //@   ensures (=> (not (isErr err)) (exists ((x Val)) (and (= res (mergeF obj x))                             [C10]
@@ -1126,6 +1139,7 @@ package bkl
 //@     invariant (= (rapp ret (filterMatch (heap Document.Data) rest pat)) (rapp ret@loop (filterMatch (heap Document.Data) ds pat)))
 
 //@ func yamlTranslateNode(node, depth) (res, err)
+//@   property C15, C16, C17, C20   -- the tools read their inputs and write their result through these codecs (reached through the format table, not a static call)
 //@   property C14   -- what $decode: yaml makes of every scalar
 //@   propagates all   [C08]
 //@   uses canonApp
@@ -1393,6 +1407,7 @@ package bkl
 // ------------------------------------------------------------------------------------------------- toml.go, yaml.go, json.go (stream framing, C05)
 
 //@ func tomlMarshalStream(vs) (res, err)
+//@   property C15, C16, C17, C20   -- the tools read their inputs and write their result through these codecs (reached through the format table, not a static call)
 //@   propagates all   [C08]
 //@   property C05, C14   -- $encode: <format> / $decode: <format> run these codecs (reached through the format table, not a static call)
 //@   ensures (= (isErr err) (seqEncErr codecTOML (ls vs) 0))                                                 [C05]
@@ -1404,6 +1419,7 @@ package bkl
 //@     invariant (= (seqEncErr codecTOML rest idx) (seqEncErr codecTOML (ls vs) 0))
 //
 //@ func tomlUnmarshalStream(in) (res, err)
+//@   property C15, C16, C17, C20   -- the tools read their inputs and write their result through these codecs (reached through the format table, not a static call)
 //@   propagates all   [C08]
 //@   property C05, C04, C14   -- $encode: <format> / $decode: <format> run these codecs (reached through the format table, not a static call)
 //@   uses appNil, snocApp
@@ -1415,6 +1431,7 @@ package bkl
 //@     invariant (= (app (ls ret) (tomlDecF rest)) (tomlDecF (reSplit (rePat tomlRE) in (- 1))))
 //
 //@ func yamlUnmarshalStream(in) (res, err)
+//@   property C15, C16, C17, C20   -- the tools read their inputs and write their result through these codecs (reached through the format table, not a static call)
 //@   propagates all   [C08]
 //@   property C05, C04, C14   -- $encode: <format> / $decode: <format> run these codecs (reached through the format table, not a static call)
 //@   uses appLen
@@ -1424,6 +1441,7 @@ package bkl
 //@     invariant (= (+ (llen (ls ret)) (sllen rest)) (sllen (reSplit (rePat yamlRE) in (- 1))))
 //
 //@ func jsonUnmarshalStream(in) (res, err)
+//@   property C15, C16, C17, C20   -- the tools read their inputs and write their result through these codecs (reached through the format table, not a static call)
 //@   propagates all   [C08]
 //@   property C05, C04, C14   -- $encode: <format> / $decode: <format> run these codecs (reached through the format table, not a static call)
 //@   uses appNil, snocApp
@@ -1447,6 +1465,7 @@ package bkl
 //@   accepts "---"
 //
 //@ func jsonMarshalStream(vs) (res, err)
+//@   property C15, C16, C17, C20   -- the tools read their inputs and write their result through these codecs (reached through the format table, not a static call)
 //@   propagates all   [C08]
 //@   property C05, C14   -- $encode: <format> / $decode: <format> run these codecs (reached through the format table, not a static call)
 //@   ensures (exists ((c Int)) (and (= (isErr err) (seqEncErr c (ls vs) 0)) (=> (not (isErr err)) (= res (jsonFrame c (ls vs) 0)))))   [C05]
@@ -1456,6 +1475,7 @@ package bkl
 //@     invariant (= (seqEncErr (codecOf enc) rest idx) (seqEncErr (codecOf enc) (ls vs) 0))
 //
 //@ func jsonMarshalStreamPretty(vs) (res, err)
+//@   property C15, C16, C17, C20   -- the tools read their inputs and write their result through these codecs (reached through the format table, not a static call)
 //@   propagates all   [C08]
 //@   property C05, C14   -- $encode: <format> / $decode: <format> run these codecs (reached through the format table, not a static call)
 //@   ensures (exists ((c Int)) (and (= (isErr err) (seqEncErr c (ls vs) 0)) (=> (not (isErr err)) (= res (jsonFrame c (ls vs) 0)))))   [C05]
@@ -1465,6 +1485,7 @@ package bkl
 //@     invariant (= (seqEncErr (codecOf enc) rest idx) (seqEncErr (codecOf enc) (ls vs) 0))
 //
 //@ func yamlMarshalStream(vs) (res, err)
+//@   property C15, C16, C17, C20   -- the tools read their inputs and write their result through these codecs (reached through the format table, not a static call)
 //@   propagates all   [C08]
 //@   property C05, C14   -- $encode: <format> / $decode: <format> run these codecs (reached through the format table, not a static call)
 //@   ensures (exists ((c Int)) (and (= (isErr err) (yamlEncErr c (ls vs) 0)) (=> (not (isErr err)) (= res (yamlFrame c (ls vs) 0 0)))))   [C05]
